@@ -28,7 +28,10 @@ timestamps in step) and every view is indexed with the same ids. C08.4-6:
 lazy getters, transform (left t.p, right p.t, propagating variant) and scale
 have the documented operand roles, established on the provenance terms of the
 values stored to the views. C08.7: derived quantities are computed on demand
-(no attribute store).
+(no attribute store). C08.8: alignment has its documented effect in every flag
+combination — scale-only applies scale(s) and nothing else, similarity applies
+scale then transform, rigid only transform, origin alignment left-multiplies
+ref_0 . inverse(own_0) (instances of C04.3/C04.4).
 """
 UNDECIDED = [
     "numerical validity of poses as SE(3) after long operation histories "
@@ -57,7 +60,7 @@ MANIFEST = dict(
               "matching of stored values",
 )
 FLOORS = {"C08.1": 30, "C08.3": 6, "C08.4": 3, "C08.5": 4, "C08.6": 2,
-          "C08.7": 4}
+          "C08.7": 4, "C08.8": 8}
 
 PATH = "evo.core.trajectory.PosePath3D"
 TRAJ = "evo.core.trajectory.PoseTrajectory3D"
@@ -301,6 +304,11 @@ def check(ctx):
                    f"object: a derived quantity cached there goes stale on "
                    f"the next operation",
                    key=f"C08.7:{f.qualname}:cached")
+
+    # --------------------------------------------------------------- C08.8
+    from ..core import import_rules
+    n = import_rules(ctx, "c04", ("C04.3", "C04.4"), "C08.8")
+    ctx.require(n >= 8, "C08.8: alignment-effect instances not found")
 
     # constructor: the views come from the like-named arguments
     f = prog.func(f"{PATH}.__init__")
